@@ -6,8 +6,8 @@ props = [json.loads(l) for l in open(os.path.join(HERE, 'properties.jsonl'))]
 
 BUILT = {
  # id: (level, technique, level_text, level_note, design_ref)
- 'C12': ('fault_enumeration', 'runtime monitoring: offline oracle over recorded Send/Receive histories and a wire tap, real tcpTransport over a fault-injecting in-memory net.Conn (build-tag hook)',
-         'Every enumerated fault plan (all single/pairs of split offsets, all short-write lengths x timeout repeats, all pairs of short writes, all cut offsets, coalescing, context expiry mid-envelope) plus seeded random plans (with TLS) is executed against the real transport code; the monitor compares the received sequence and the wire bytes with what was acknowledged. Held = held on these executions.',
+ 'C12': ('fault_enumeration', 'runtime monitoring: offline oracle over recorded Send/Receive histories and a wire tap, real tcpTransport over a fault-injecting in-memory net.Conn (build-tag hook) and over real sockets',
+         'Every enumerated fault plan (all single/pairs of split offsets, all short-write lengths x timeout repeats, all pairs of short writes, all cut offsets, coalescing, context expiry mid-envelope also with a coalesced predecessor, TLS 1.2/1.3 close with everything arriving at once, a rejected value followed by a valid envelope, a send whose context ends after a partial write, long streams over a real listener and dialer) plus seeded random plans (with TLS) is executed against the real transport code; the monitor compares the received sequence and the wire bytes with what was acknowledged. Held = held on these executions.',
          'faultconn honours the net.Conn contract; crypto/tls, encoding/json trusted; envelopes from the well-formed generator', 'DESIGN.md §5 C12'),
 }
 def load_built():
